@@ -150,6 +150,41 @@ CLAIMED = {
             'Trusted: Lean kernel; recorder model tied by differential execution; known finding K5 (alias containing the reserved '
             'operation alias) is excluded by hypothesis and exhibited as a counterexample theorem and corpus witness.',
             'DESIGN.md 6/C18'),
+    'C06': ('Lean 4 theorems over a hand-written token-level model of jsonpickle 0.9.3 over json (encToks/decToks/render) and of '
+            '_format_alias / _input_interception_key; tied to /repo by exact-text differential execution of every key (direct '
+            'path and real decorator path), re-keying under PYTHONHASHSEED 0/1/random, replay in fresh processes with other hash '
+            'seeds, a partition oracle and an adversarial separator stream',
+            'Kernel-checked: the key is a function of (resolved alias, captured args); invariant under dict/kwargs insertion '
+            'order at any depth, under excluded arguments, and (set-free args) under the set iteration order; the codec '
+            'round-trips on the faithful domain and the token-level key is injective up to dict order; the alias boundary is '
+            'proved on characters for aliases without =.',
+            'Partial as named: set-valued captured args (K1, open). Injectivity at token level (json lexing trusted, exact-text '
+            'tie). Values are trees (py/id sharing outside). jsonpickle behaviour transcribed, not verified.', 'DESIGN.md 6/C06'),
+    'C07': ('Lean 4 theorems over a model of the three cassettes as name->blob stores over the same codec model (zlib a '
+            'parameter); tied to /repo by running the real in-memory / file / S3 (fake bucket, prefixes \'\', p, a/b) '
+            'cassettes and the model on the same histories, comparing fetched content, stored names and stored text',
+            'Kernel-checked for every cassette kind: fetch-after-save returns the saved id, key set, per-key data and metadata '
+            '(up to dict order); metadata alone agrees; other saves before and after do not disturb; never-saved ids give '
+            'NoSuchRecording; cassette-made ids get distinct files.',
+            'Token-level codec. zlib, json lexing, fake S3 and the file system are trusted. Excluded by explicit hypotheses: '
+            'reserved-tag key names, attribute-less objects, S3 data key _metadata (K2, open), shared sub-objects after an object '
+            'whose state holds a list (K7, open).', 'DESIGN.md 6/C07'),
+    'C11': ('Lean 4 proof on a heap model of aliasing (addresses, fresh-copy allocation, closed private blocks, invariant over '
+            'arbitrary client operation lists); tied to /repo by differential execution of scripted mutation histories on all '
+            'three cassettes through every read path plus a direct stability / independence / copy-on-interception oracle',
+            'Kernel-checked on the heap model for all operation lists: reads are fresh copies, fetches are independent object '
+            'graphs, replays are stable under client mutation, copy-on-interception protects captured input values and output '
+            'results. Partial at runtime: CPython object identity and jsonpickle decode(encode(v)) are exercised, not proved.',
+            'Values are trees, so sharing inside one stored value is outside the model. Known finding K4 (output arguments stored '
+            'by reference) is open, transcribed in the model and exhibited as a counterexample theorem.', 'DESIGN.md 6/C11'),
+    'C20': ('Lean 4 proof on a hand-written model of the file data handlers (concrete base64 with a round-trip proof for all '
+            'byte lists, exact-rational size rule, tiny file system with a read log); tied to /repo by full record -> cassette -> '
+            'replay trips on all three cassettes with an open() audit hook and a direct byte-identity oracle',
+            'Kernel-checked for all byte contents, paths and limits: content up to the limit is restored byte-identically at the '
+            'replayed path (inputs) / in the holder (outputs); above the limit the placeholder is stored and the file is never '
+            'read; the boundary is exact (L bytes not above, L+1 above); the environment limit is truncated.',
+            'File-system semantics, Python float parsing and the envelope\'s jsonpickle trip are validated by the correspondence '
+            'run only.', 'DESIGN.md 6/C20'),
 }
 
 NOT_YET = 'check not built yet in this round (work in progress; see DESIGN.md section 6 for the planned proof and tie)'
